@@ -103,6 +103,11 @@ def print_str_args(rule, args, th):
                 return print_term(val)
         elif isinstance(val, Type):
             return print_type(val)
+        elif isinstance(val, hol_type.TyInst):
+            # Same syntax as read by parser.parse_tyinst
+            items = sorted(val.items(), key = lambda pair: pair[0])
+            return pprint.N('{') + commas_join(pprint.N(key + ': ') + print_type(T)
+                                               for key, T in items) + pprint.N('}')
         else:
             return pprint.N(str(val))
 
